@@ -35,6 +35,9 @@ pub mod parsing;
 #[cfg(feature = "docs")]
 pub mod docs;
 
+#[cfg(feature = "verif-hooks")]
+pub mod verif;
+
 #[cfg(feature = "cli")]
 pub mod cli;
 
